@@ -71,3 +71,239 @@ Qed.
 
 Lemma euclid_r_le x y : 0 <= x -> 0 < y -> euclid_r x y <= x.
 Proof. intros Hx Hy. unfold euclid_r. rewrite Z.abs_eq by lia. apply Z.mod_le; assumption. Qed.
+
+(* ------------------------------------------------------------------------------------------ *)
+(* v_compare is a strict total order on the values it relates (no typing needed: it only       *)
+(* answers on matching comparable shapes)                                                      *)
+(* ------------------------------------------------------------------------------------------ *)
+Local Close Scope Z_scope.
+
+Lemma bytes_cmp_eq a : forall b, bytes_cmp a b = Eq -> a = b.
+Proof.
+  induction a as [|x a IH]; intros [|y b] H; simpl in H; try discriminate; [reflexivity|].
+  destruct (N.compare (Byte.to_N x) (Byte.to_N y)) eqn:E; try discriminate.
+  apply N.compare_eq in E. apply to_N_inj in E. subst. f_equal. apply IH. exact H.
+Qed.
+
+Lemma bytes_cmp_refl a : bytes_cmp a a = Eq.
+Proof. induction a as [|x a IH]; simpl; [reflexivity|]. rewrite N.compare_refl. exact IH. Qed.
+
+Lemma bytes_cmp_antisym a : forall b, bytes_cmp b a = CompOpp (bytes_cmp a b).
+Proof.
+  induction a as [|x a IH]; intros [|y b]; simpl; try reflexivity.
+  rewrite (N.compare_antisym (Byte.to_N x) (Byte.to_N y)).
+  destruct (N.compare (Byte.to_N x) (Byte.to_N y)); simpl; auto.
+Qed.
+
+Lemma bytes_cmp_trans a : forall b c, bytes_cmp a b = Lt -> bytes_cmp b c = Lt -> bytes_cmp a c = Lt.
+Proof.
+  induction a as [|x a IH]; intros [|y b] [|z c] H1 H2; simpl in *; try discriminate; try reflexivity.
+  destruct (N.compare_spec (Byte.to_N x) (Byte.to_N y)) as [E1|E1|E1]; try discriminate;
+    destruct (N.compare_spec (Byte.to_N y) (Byte.to_N z)) as [E2|E2|E2]; try discriminate.
+  - rewrite E1, E2, N.compare_refl. eapply IH; eassumption.
+  - rewrite E1. apply N.compare_lt_iff in E2. rewrite E2. reflexivity.
+  - rewrite <- E2. apply N.compare_lt_iff in E1. rewrite E1. reflexivity.
+  - assert (E : (Byte.to_N x < Byte.to_N z)%N) by lia. apply N.compare_lt_iff in E. rewrite E. reflexivity.
+Qed.
+
+Ltac vc_case H E :=
+  match type of H with context [match v_compare ?p ?q with _ => _ end] => destruct (v_compare p q) as [[]|] eqn:E; try discriminate H end.
+
+Lemma v_compare_eq a : forall y, v_compare a y = Some Eq -> a = y.
+Proof.
+  induction a; intros y H; destruct y; simpl in H; try discriminate; try reflexivity.
+  - injection H as H. apply Z.compare_eq in H. congruence.
+  - injection H as H. apply Z.compare_eq in H. congruence.
+  - injection H as H. apply bytes_cmp_eq in H. congruence.
+  - match goal with |- VBool ?p = VBool ?q => destruct p, q; try discriminate; reflexivity end.
+  - vc_case H E1. rewrite (IHa1 _ E1), (IHa2 _ H). reflexivity.
+  - rewrite (IHa _ H). reflexivity.
+  - rewrite (IHa _ H). reflexivity.
+  - rewrite (IHa _ H). reflexivity.
+Qed.
+
+Lemma v_compare_antisym a : forall y c, v_compare a y = Some c -> v_compare y a = Some (CompOpp c).
+Proof.
+  induction a; intros y c H; destruct y; simpl in H |- *; try discriminate; try (apply IHa; exact H);
+    try (injection H as <-; reflexivity).
+  - injection H as <-. f_equal. apply Z.compare_antisym.
+  - injection H as <-. f_equal. apply Z.compare_antisym.
+  - injection H as <-. f_equal. apply bytes_cmp_antisym.
+  - injection H as <-. repeat match goal with b : bool |- _ => destruct b end; reflexivity.
+  - vc_case H E1.
+    + rewrite (IHa1 _ _ E1). simpl. apply IHa2. exact H.
+    + injection H as <-. rewrite (IHa1 _ _ E1). reflexivity.
+    + injection H as <-. rewrite (IHa1 _ _ E1). reflexivity.
+Qed.
+
+Lemma v_compare_trans a : forall y w, v_compare a y = Some Lt -> v_compare y w = Some Lt -> v_compare a w = Some Lt.
+Proof.
+  induction a; intros y w H1 H2; destruct y; simpl in H1; try discriminate; destruct w; simpl in H2 |- *; try discriminate;
+    try reflexivity; try (eapply IHa; eassumption).
+  - injection H1 as H1. injection H2 as H2. f_equal. rewrite Z.compare_lt_iff in H1, H2.
+    apply Z.compare_lt_iff. lia.
+  - injection H1 as H1. injection H2 as H2. f_equal. rewrite Z.compare_lt_iff in H1, H2.
+    apply Z.compare_lt_iff. lia.
+  - injection H1 as H1. injection H2 as H2. f_equal. eapply bytes_cmp_trans; eassumption.
+  - repeat match goal with b : bool |- _ => destruct b end; try discriminate; reflexivity.
+  - vc_case H1 E1; vc_case H2 E2.
+    + apply v_compare_eq in E2. subst. rewrite E1. eapply IHa2; eassumption.
+    + apply v_compare_eq in E1. subst. rewrite E2. reflexivity.
+    + apply v_compare_eq in E2. subst. rewrite E1. reflexivity.
+    + rewrite (IHa1 _ _ E1 E2). reflexivity.
+Qed.
+
+(* ---- strictly sorted lists ---- *)
+Definition v_lt (a b : value) : Prop := v_compare a b = Some Lt.
+
+Lemma v_sorted_cons x l : v_strict_sorted (x :: l) = true ->
+  v_strict_sorted l = true /\ Forall (v_lt x) l.
+Proof.
+  revert x. induction l as [|y r IH]; intros x H; [split; [reflexivity | constructor]|].
+  cbn [v_strict_sorted] in H. destruct (v_compare x y) as [[]|] eqn:E; try discriminate.
+  destruct (IH y H) as [S F]. split; [exact H|]. constructor; [exact E|].
+  eapply Forall_impl; [|exact F]. intros z Hz. unfold v_lt in *. eapply v_compare_trans; eassumption.
+Qed.
+
+Lemma v_sorted_intro x l : v_strict_sorted l = true -> (match l with [] => True | y :: _ => v_lt x y end) ->
+  v_strict_sorted (x :: l) = true.
+Proof. destruct l as [|y r]; intros S H; [reflexivity|]. cbn [v_strict_sorted]. unfold v_lt in H. rewrite H. exact S. Qed.
+
+Lemma v_sorted_iff x l : v_strict_sorted (x :: l) = true <-> v_strict_sorted l = true /\ Forall (v_lt x) l.
+Proof.
+  split; [apply v_sorted_cons|]. intros [S F]. apply v_sorted_intro; [exact S|]. destruct l; [exact I|]. inversion F; assumption.
+Qed.
+
+Definition cmp_defined (x : value) (l : list value) : Prop := Forall (fun y => v_compare x y <> None) l.
+
+(* ---- sets ---- *)
+Lemma v_set_add_Forall (P : value -> Prop) x : forall l l', P x -> Forall P l -> v_set_add x l = Some l' -> Forall P l'.
+Proof.
+  induction l as [|y r IH]; intros l' Px F H; simpl in H.
+  - injection H as <-. constructor; [exact Px | constructor].
+  - inversion F as [|? ? Py Fr]; subst. destruct (v_compare x y) as [[]|]; try discriminate.
+    + injection H as <-. exact F.
+    + injection H as <-. constructor; [exact Px | exact F].
+    + destruct (v_set_add x r) as [r'|] eqn:E; [|discriminate]. injection H as <-. constructor; [exact Py|]. eapply IH; eauto.
+Qed.
+
+Lemma v_set_add_sorted x : forall l, v_strict_sorted l = true -> cmp_defined x l ->
+  exists l', v_set_add x l = Some l' /\ v_strict_sorted l' = true.
+Proof.
+  induction l as [|y r IH]; intros S D; simpl.
+  - exists [x]. auto.
+  - inversion D as [|? ? Dy Dr]; subst. apply v_sorted_iff in S as [Sr Fy].
+    destruct (v_compare x y) as [[]|] eqn:E; [| | |congruence].
+    + exists (y :: r). split; [reflexivity|]. apply v_sorted_iff. auto.
+    + exists (x :: y :: r). split; [reflexivity|]. apply v_sorted_intro; [apply v_sorted_iff; auto | exact E].
+    + destruct (IH Sr Dr) as (r' & E' & S'). rewrite E'. exists (y :: r'). split; [reflexivity|].
+      apply v_sorted_iff. split; [exact S'|]. eapply (v_set_add_Forall (v_lt y)); [|exact Fy|exact E'].
+      unfold v_lt. apply v_compare_antisym in E. exact E.
+Qed.
+
+Lemma v_no_eq_after x y r : v_compare x y = Some Lt -> Forall (v_lt y) r -> Forall (fun z => v_compare x z = Some Lt) r.
+Proof. intros E F. eapply Forall_impl; [|exact F]. intros z Hz. eapply v_compare_trans; eassumption. Qed.
+
+Lemma v_set_remove_id x : forall l, Forall (fun z => v_compare x z = Some Lt) l -> v_set_remove x l = Some l.
+Proof.
+  induction l as [|y r IH]; intros F; simpl; [reflexivity|]. inversion F as [|? ? Hy Fr]; subst. rewrite Hy, (IH Fr). reflexivity.
+Qed.
+
+Lemma v_set_remove_Forall (P : value -> Prop) x : forall l l', Forall P l -> v_set_remove x l = Some l' -> Forall P l'.
+Proof.
+  induction l as [|y r IH]; intros l' F H; simpl in H.
+  - injection H as <-. constructor.
+  - inversion F as [|? ? Py Fr]; subst. destruct (v_compare x y) as [[]|]; try discriminate.
+    + injection H as <-. exact Fr.
+    + destruct (v_set_remove x r) as [r'|] eqn:E; [|discriminate]. injection H as <-. constructor; [exact Py | eapply IH; eauto].
+    + destruct (v_set_remove x r) as [r'|] eqn:E; [|discriminate]. injection H as <-. constructor; [exact Py | eapply IH; eauto].
+Qed.
+
+Lemma v_set_remove_sorted x : forall l, v_strict_sorted l = true -> cmp_defined x l ->
+  exists l', v_set_remove x l = Some l' /\ v_strict_sorted l' = true.
+Proof.
+  induction l as [|y r IH]; intros S D; simpl.
+  - exists []. auto.
+  - inversion D as [|? ? Dy Dr]; subst. apply v_sorted_iff in S as [Sr Fy].
+    destruct (IH Sr Dr) as (r' & E' & S').
+    destruct (v_compare x y) as [[]|] eqn:E; [| | |congruence].
+    + exists r. auto.
+    + rewrite E'. exists (y :: r'). split; [reflexivity|]. apply v_sorted_iff. split; [exact S'|].
+      eapply v_set_remove_Forall; eassumption.
+    + rewrite E'. exists (y :: r'). split; [reflexivity|]. apply v_sorted_iff. split; [exact S'|].
+      eapply v_set_remove_Forall; eassumption.
+Qed.
+
+(* ---- maps: lists of entries VPair key value, strictly sorted by key ---- *)
+Definition is_entry (e : value) : Prop := exists k v, e = VPair k v.
+
+Lemma v_map_set_keys (P : value -> Prop) k v : forall l l', P k -> Forall P (map v_key l) -> v_map_set k v l = Some l' ->
+  Forall P (map v_key l').
+Proof.
+  induction l as [|y r IH]; intros l' Pk F H; simpl in H.
+  - injection H as <-. simpl. constructor; [exact Pk | constructor].
+  - destruct y; try discriminate. simpl in F. inversion F as [|? ? Py Fr]; subst.
+    destruct (v_compare k y1) as [[]|]; try discriminate.
+    + injection H as <-. simpl. constructor; [exact Pk | exact Fr].
+    + injection H as <-. simpl. constructor; [exact Pk|]. constructor; assumption.
+    + destruct (v_map_set k v r) as [r'|] eqn:E; [|discriminate]. injection H as <-. simpl. constructor; [exact Py|]. eapply IH; eauto.
+Qed.
+
+Lemma v_map_set_sorted k v : forall l, v_strict_sorted (map v_key l) = true -> cmp_defined k (map v_key l) -> Forall is_entry l ->
+  exists l', v_map_set k v l = Some l' /\ v_strict_sorted (map v_key l') = true /\ Forall is_entry l'.
+Proof.
+  induction l as [|y r IH]; intros S D En; simpl.
+  - exists [VPair k v]. repeat split; auto. constructor; [exists k, v; reflexivity | constructor].
+  - inversion En as [|? ? (k' & v' & ->) Er]; subst. simpl in S, D. inversion D as [|? ? Dy Dr]; subst.
+    apply v_sorted_iff in S as [Sr Fy].
+    destruct (v_compare k k') as [[]|] eqn:E; [| | |congruence].
+    + exists (VPair k v :: r). split; [reflexivity|]. split; [|constructor; [exists k, v; reflexivity | exact Er]].
+      cbn [map v_key]. apply v_sorted_iff. split; [exact Sr|]. apply v_compare_eq in E. subst. exact Fy.
+    + exists (VPair k v :: VPair k' v' :: r). split; [reflexivity|]. split.
+      * cbn [map v_key]. apply v_sorted_intro; [apply v_sorted_iff; auto | exact E].
+      * constructor; [exists k, v; reflexivity | exact En].
+    + destruct (IH Sr Dr Er) as (r' & E' & S' & En'). rewrite E'. exists (VPair k' v' :: r'). split; [reflexivity|]. split.
+      * cbn [map v_key]. apply v_sorted_iff. split; [exact S'|]. eapply (v_map_set_keys (v_lt k')); [|exact Fy|exact E'].
+        unfold v_lt. apply v_compare_antisym in E. exact E.
+      * constructor; [exists k', v'; reflexivity | exact En'].
+Qed.
+
+Lemma v_map_remove_id k : forall l, Forall is_entry l -> Forall (fun z => v_compare k z = Some Lt) (map v_key l) -> v_map_remove k l = Some l.
+Proof.
+  induction l as [|y r IH]; intros En F; simpl; [reflexivity|]. inversion En as [|? ? (k' & v' & ->) Er]; subst.
+  simpl in F. inversion F as [|? ? Hy Fr]; subst. rewrite Hy, (IH Er Fr). reflexivity.
+Qed.
+
+Lemma v_map_get_none k : forall l, Forall is_entry l -> Forall (fun z => v_compare k z = Some Lt) (map v_key l) -> v_map_get k l = Some None.
+Proof.
+  induction l as [|y r IH]; intros En F; simpl; [reflexivity|]. inversion En as [|? ? (k' & v' & ->) Er]; subst.
+  simpl in F. inversion F as [|? ? Hy Fr]; subst. rewrite Hy. apply IH; assumption.
+Qed.
+
+Lemma v_map_remove_keys (P : value -> Prop) k : forall l l', Forall P (map v_key l) -> v_map_remove k l = Some l' -> Forall P (map v_key l').
+Proof.
+  induction l as [|y r IH]; intros l' F H; simpl in H.
+  - injection H as <-. constructor.
+  - destruct y; try discriminate. simpl in F. inversion F as [|? ? Py Fr]; subst.
+    destruct (v_compare k y1) as [[]|]; try discriminate.
+    + injection H as <-. exact Fr.
+    + destruct (v_map_remove k r) as [r'|] eqn:E; [|discriminate]. injection H as <-. simpl. constructor; [exact Py | eapply IH; eauto].
+    + destruct (v_map_remove k r) as [r'|] eqn:E; [|discriminate]. injection H as <-. simpl. constructor; [exact Py | eapply IH; eauto].
+Qed.
+
+Lemma v_map_remove_sorted k : forall l, v_strict_sorted (map v_key l) = true -> cmp_defined k (map v_key l) -> Forall is_entry l ->
+  exists l', v_map_remove k l = Some l' /\ v_strict_sorted (map v_key l') = true /\ Forall is_entry l'.
+Proof.
+  induction l as [|y r IH]; intros S D En; simpl.
+  - exists []. auto.
+  - inversion En as [|? ? (k' & v' & ->) Er]; subst. simpl in S, D. inversion D as [|? ? Dy Dr]; subst.
+    apply v_sorted_iff in S as [Sr Fy]. destruct (IH Sr Dr Er) as (r' & E' & S' & En').
+    destruct (v_compare k k') as [[]|] eqn:E; [| | |congruence].
+    + exists r. auto.
+    + rewrite E'. exists (VPair k' v' :: r'). split; [reflexivity|]. split.
+      * cbn [map v_key]. apply v_sorted_iff. split; [exact S'|]. eapply v_map_remove_keys; eassumption.
+      * constructor; [exists k', v'; reflexivity | exact En'].
+    + rewrite E'. exists (VPair k' v' :: r'). split; [reflexivity|]. split.
+      * cbn [map v_key]. apply v_sorted_iff. split; [exact S'|]. eapply v_map_remove_keys; eassumption.
+      * constructor; [exists k', v'; reflexivity | exact En'].
+Qed.
